@@ -210,7 +210,7 @@ class EXXSphGenerator:
 
     @property
     def has_l1(self):
-        return self.plan.settings.n1terms > 0
+        return self.plan.num_l1_feat > 0
 
     def reset_buffers(self):
         self._ao_buf = None
